@@ -223,3 +223,11 @@ def check(cx):
     # ---- C03.9 (construct shared with C04.1b) -----------------------------------------------------------------------
     cx.include(c04, {"C04.1b"}, "C03.9", "shared with C04.1b: every new snapshot carries the complete aborted set; a filtered set makes "
                "the writes of a rolled-back transaction visible", floor=4)
+
+    # ---- C03.10 / C03.11 (constructs shared with C13.4 and C09.4) --------------------------------------------------
+    cx.include(c13, {"C13.4"}, "C03.10", "shared with C13.4: VACUUM forgets transactions, tree versions and bitmap bits up to one horizon, "
+               "taken before its own commit; a cleanup with a later cut-off forgets the rollback of sessions that were open during VACUUM", floor=6)
+    from . import c09
+    cx.include(c09, {"C09.4"}, "C03.11", "shared with C09.4: the persisted aborted set is written and read back with one bit layout; an id that is "
+               "marked but not loaded on open turns a rolled-back transaction into a committed one after a clean restart", floor=4,
+               skip=("drops-large-ids",))
